@@ -224,19 +224,75 @@ func (s *Search) evalBool(v ssa.Value, f pfacts) (val bool, known bool) {
 	return false, false
 }
 
+var condRootCache = map[*ssa.Function]map[ssa.Value]int{}
+
+// condRoots counts, per function, in how many branch conditions a value is tested (directly or
+// as the non-constant side of an ==/!= comparison). Facts are only worth remembering for
+// values tested at least twice.
+func condRoots(fn *ssa.Function) map[ssa.Value]int {
+	if m, ok := condRootCache[fn]; ok {
+		return m
+	}
+	m := map[ssa.Value]int{}
+	var add func(v ssa.Value, d int)
+	add = func(v ssa.Value, d int) {
+		if v == nil || d > 3 {
+			return
+		}
+		v, _ = stripNot(v, true)
+		if phi, ok := v.(*ssa.Phi); ok {
+			for _, e := range phi.Edges {
+				add(e, d+1)
+			}
+		}
+		if x, _, _, ok := cmpConst(v); ok {
+			m[x]++
+		}
+		m[v]++
+	}
+	for _, b := range fn.Blocks {
+		if len(b.Instrs) == 0 {
+			continue
+		}
+		if ifi, ok := b.Instrs[len(b.Instrs)-1].(*ssa.If); ok {
+			add(ifi.Cond, 0)
+		}
+	}
+	condRootCache[fn] = m
+	return m
+}
+
 // learn extends the facts with what taking `branch` of cond tells.
 func learn(f pfacts, cond ssa.Value, branch bool) pfacts {
 	v, br := stripNot(cond, branch)
 	if _, isConst := v.(*ssa.Const); isConst {
 		return f
 	}
+	var roots map[ssa.Value]int
+	if ins, ok := v.(ssa.Instruction); ok && ins.Parent() != nil {
+		roots = condRoots(ins.Parent())
+	}
 	if x, k, eq, ok := cmpConst(v); ok {
+		if roots != nil && roots[x] < 2 && roots[v] < 2 {
+			return f
+		}
+		if roots != nil && roots[x] < 2 {
+			// the comparison value itself is re-tested: remember it as a boolean
+			n := int64(0)
+			if br {
+				n = 1
+			}
+			return f.with(pfact{v, 'b', n})
+		}
 		if eq == br {
 			return f.with(pfact{x, '=', k})
 		}
 		return f.with(pfact{x, '!', k})
 	}
 	if isBoolType(v.Type()) {
+		if roots != nil && roots[v] < 2 {
+			return f
+		}
 		n := int64(0)
 		if br {
 			n = 1
